@@ -33,8 +33,8 @@ func isAppendWith(v ssa.Value) func(ssa.Instruction) bool {
 			return false
 		}
 		for _, e := range elems {
-			if okk, _ := allOrigins(e, oIsValue(v)); okk {
-				return true
+			if someOrigin(e, oIsValue(v)) {
+				return true // the appended value is (on some path, e.g. through a helper's result) the error in question
 			}
 		}
 		return false
@@ -86,7 +86,7 @@ func errorRecorded(c *Ctx, rule string, f *ssa.Function, k *ssa.Call, construct 
 		if returned {
 			continue
 		}
-		if pathExists(f, k, r, factNil(vIs(ev), true), isAppendWith(ev)) {
+		if pathExists(f, k, r, factNil(errAlias(ev), true), isAppendWith(ev)) {
 			ok = false
 		}
 	}
@@ -386,4 +386,23 @@ func sameOrigins(a, b ssa.Value) bool {
 		}
 	}
 	return true
+}
+
+// errAlias recognises the error value ev and variables that hold it (err = e; the result of a helper that returned it):
+// every origin is ev or nil, and ev is among them.
+func errAlias(ev ssa.Value) VPred {
+	return func(v ssa.Value) bool {
+		if v == ev {
+			return true
+		}
+		has := false
+		for _, o := range originsOf(v) {
+			if oIsValue(ev)(o) {
+				has = true
+			} else if !isNilConst(o.V) {
+				return false
+			}
+		}
+		return has
+	}
 }
